@@ -12,6 +12,9 @@ import (
 func claimable(s *PropSpec) (bool, []string) {
 	var missing []string
 	for _, id := range append(append([]string{}, s.Quick...), s.Thorough...) {
+		if i := strings.IndexByte(id, '['); i > 0 {
+			id = id[:i]
+		}
 		if rules[id] == nil {
 			missing = append(missing, id)
 		}
